@@ -164,6 +164,9 @@ func init() {
 			if k := i - ctx.N(18, 120) - 10; k >= 0 && k < 8 {
 				return typelessDefCase(k)
 			}
+			if k := i - ctx.N(18, 120) - 18; k >= 0 && k < 6 {
+				return selfRefTwinCase(k)
+			}
 			return nil
 		},
 		args: func(r *sg.Rng, root *sg.Schema) []string {
@@ -216,6 +219,9 @@ func init() {
 		}
 		if k := i - ctx.N(12, 90) - ctx.N(8, 32) - 49; k >= 0 && k < 8 {
 			return extFieldCase(k)
+		}
+		if k := i - ctx.N(12, 90) - ctx.N(8, 32) - 57; k >= 0 && k < 8 {
+			return oddRequiredNameCase(k)
 		}
 		return nil
 	}
@@ -313,6 +319,9 @@ func init() {
 					return c
 				}
 				return skipCase
+			}
+			if i < 146 {
+				return formatEnumCase(i - 136)
 			}
 			return nil
 		},
@@ -2003,6 +2012,9 @@ func strataForC01(ctx *Ctx) []*sem.Case {
 	add(7, ignoredArrayKeywordCase)
 	add(8, extFieldCase)
 	add(6, refObjectDefaultCase)
+	add(10, formatEnumCase)
+	add(8, oddRequiredNameCase)
+	add(6, selfRefTwinCase)
 	add(12, objectDefaultCase)
 	add(12, nullableDefCase)
 	add(16, nestedOverlapCase)
@@ -2244,6 +2256,88 @@ func refObjectDefaultCase(i int) *sem.Case {
 		if ok {
 			c.Docs = append(c.Docs, docgen.Doc{V: d, Class: "default", Label: "ref-object-default"})
 		}
+	}
+	return c
+}
+
+// formatEnumCase: string enums that also carry a format annotation (date, time, date-time, ipv4, ipv6), typed and
+// untyped, next to plain format strings of the same kinds (so that the format's Go package is imported anyway):
+// every listed value is accepted and re-marshals to itself, everything else is rejected.
+func formatEnumCase(i int) *sem.Case {
+	kinds := []struct {
+		format string
+		vals   []string
+		non    []string
+	}{
+		{"date", []string{"2024-01-01", "2024-12-25"}, []string{"2024-01-02", "x"}},
+		{"ipv4", []string{"10.0.0.1", "10.0.0.254"}, []string{"10.0.0.2", "gw"}},
+		{"date-time", []string{"2024-01-01T00:00:00Z", "2024-06-30T12:30:00Z"}, []string{"2024-01-01T00:00:01Z"}},
+		{"time", []string{"08:00:00", "17:30:00"}, []string{"09:00:00"}},
+		{"ipv6", []string{"::1", "fe80::1"}, []string{"::2"}},
+	}
+	k := kinds[i%len(kinds)]
+	mk := func(typed bool) *sg.Schema {
+		s := &sg.Schema{HasEnum: true, Format: k.format}
+		for _, v := range k.vals {
+			s.Enum = append(s.Enum, v)
+		}
+		if typed {
+			s.Types = []string{"string"}
+		}
+		return s
+	}
+	typed := (i/len(kinds))%2 == 1
+	def := mk(typed)
+	root := &sg.Schema{Types: []string{"object"}, Defs: []sg.Prop{{Name: "Choice", S: def}}, Props: []sg.Prop{
+		{Name: "pick", S: mk(typed)}, {Name: "viaDef", S: &sg.Schema{Ref: "#/$defs/Choice", Target: def}}, {Name: "list", S: &sg.Schema{Types: []string{"array"}, Items: mk(typed)}},
+		{Name: "plain", S: &sg.Schema{Types: []string{"string"}, Format: k.format}}}}
+	c := &sem.Case{Root: root, Sig: fmt.Sprintf("format-enum/%s/%v", k.format, typed), NoAuto: true}
+	for _, key := range []string{"pick", "viaDef"} {
+		for _, v := range k.vals {
+			c.Docs = append(c.Docs, docgen.Doc{V: jsonx.Obj{{K: key, V: v}}, Class: "enum", Label: "member"})
+		}
+		for _, v := range k.non {
+			c.Docs = append(c.Docs, docgen.Doc{V: jsonx.Obj{{K: key, V: v}}, Class: "enum", Label: "non-member"})
+		}
+	}
+	c.Docs = append(c.Docs, docgen.Doc{V: jsonx.Obj{{K: "list", V: []any{k.vals[0], k.vals[1]}}}, Class: "enum", Label: "members"},
+		docgen.Doc{V: jsonx.Obj{{K: "list", V: []any{k.vals[0], k.non[0]}}}, Class: "enum", Label: "non-member"},
+		docgen.Doc{V: jsonx.Obj{{K: "plain", V: k.vals[0]}, {K: "pick", V: k.vals[1]}}, Class: "enum", Label: "member"})
+	return c
+}
+
+// oddRequiredNameCase: required properties whose names are unusual but legal JSON keys (the empty string, "-", a
+// comma, blanks, non-ASCII letters, symbols), at the root, in a nested object and in array elements: a document
+// that omits exactly one of them is rejected, one that has them all is accepted.
+func oddRequiredNameCase(i int) *sem.Case {
+	pools := [][]string{{"", "en"}, {"-", "plain"}, {"com,ma", "x"}, {" ", "a b"}, {"ünï", "日本"}, {"😀", "x²"}, {"", "-", " "}, {"$", "@type", "#"}}
+	names := pools[i%len(pools)]
+	mk := func() *sg.Schema {
+		o := &sg.Schema{Types: []string{"object"}}
+		for _, n := range names {
+			o.Props = append(o.Props, sg.Prop{Name: n, S: &sg.Schema{Types: []string{"string"}}})
+			o.Required = append(o.Required, n)
+		}
+		o.Props = append(o.Props, sg.Prop{Name: "opt", S: &sg.Schema{Types: []string{"string"}}})
+		return o
+	}
+	root := mk()
+	root.Props = append(root.Props, sg.Prop{Name: "nested", S: mk()}, sg.Prop{Name: "list", S: &sg.Schema{Types: []string{"array"}, Items: mk()}})
+	c := &sem.Case{Root: root, Sig: fmt.Sprintf("odd-required-name/%d", i%len(pools)), NoAuto: true}
+	full := func(skip int) jsonx.Obj {
+		o := jsonx.Obj{}
+		for k, n := range names {
+			if k != skip {
+				o = append(o, jsonx.KV{K: n, V: "v"})
+			}
+		}
+		return o
+	}
+	c.Docs = append(c.Docs, docgen.Doc{V: full(-1), Class: "valid", Label: "all"}, docgen.Doc{V: append(full(-1), jsonx.KV{K: "nested", V: full(-1)}, jsonx.KV{K: "list", V: []any{full(-1), full(-1)}}), Class: "valid", Label: "all-everywhere"})
+	for k := range names {
+		c.Docs = append(c.Docs, docgen.Doc{V: full(k), Class: "required", Label: "root"},
+			docgen.Doc{V: append(full(-1), jsonx.KV{K: "nested", V: full(k)}), Class: "required", Label: "nested"},
+			docgen.Doc{V: append(full(-1), jsonx.KV{K: "list", V: []any{full(-1), full(k)}}), Class: "required", Label: "element"})
 	}
 	return c
 }
